@@ -35,7 +35,11 @@ def gen_case(rng, idx, tier):
                 P[i][0] += 1
         kind = "polyline"
         W = None
-        if rng.random() < 0.3:
+        if rng.random() < 0.25:
+            # rational polyline: the same geometry, non linear parametrisation inside every segment
+            W = gen.weights(rng, len(P), 9)
+            kind = "rational-polyline"
+        if W is None and rng.random() < 0.3:
             # slow parametrisation: long knot spans and / or small geometry (|C'| down to ~1e-5)
             ks = rng.choice([F(100), F(1000), F(1)])
             gs = rng.choice([F(1), F(1, 1000), F(1, 100)])
@@ -128,7 +132,11 @@ def run_case(case, ctx):
     sc = max([1.0] + [abs(c) for c in point] + [abs(float(c)) for pt in rc.P for c in pt])
     ctx.check(max(dists) - min(dists) <= 1e-6 * max(1.0, sc / 10), f"proj:unequal-distances:{kind}", f"returned parameters are not at the same distance: {dists}")
     dret = min(dists)
-    if p == 1 and kind != "zero-segment":
+    if kind == "rational-polyline":
+        # outside the guaranteed class (the problem is not piecewise linear in u): minimality is reported only
+        best = min(ref.seg_point_dist([float(c) for c in a], [float(c) for c in b], point)[0] for a, b in zip(rc.P, rc.P[1:]))
+        ctx.count("rational_polyline_min_hit" if abs(dret - best) <= 1e-6 * (1 + best) else "rational_polyline_min_missed")
+    elif p == 1 and kind != "zero-segment":
         kindp = "polyline-slow" if kind == "polyline-slow" else "polyline"
         ctx.count("polyline_minimum_checks")
         best = min(ref.seg_point_dist([float(c) for c in a], [float(c) for c in b], point)[0] for a, b in zip(rc.P, rc.P[1:]))
